@@ -85,7 +85,6 @@ func resolvePath(entries []entry, p string) (string, bool) {
 func (d *driver) runDocker(key string, scns []*scenario) ([]*blockOut, error) {
 	s0 := scns[0]
 	c0 := d.cat[sidKey(s0.Sid)]
-	e := newEnv()
 	b := &blockOut{Block: key, Kind: "docker", Traces: []*traceOut{}, Meta: map[string]any{"graph": c0.G}}
 	// which manifest.json entry is asked for
 	idx := 0
@@ -111,20 +110,38 @@ func (d *driver) runDocker(key string, scns []*scenario) ([]*blockOut, error) {
 		u := dkContent(c0.G, en.C)
 		unc[en.C] = u
 		pool[en.C] = u
-		if s0.DkGz == 1 && !strings.HasPrefix(en.C, "CFG") {
-			pool[en.C] = gz(u)
+		if !strings.HasPrefix(en.C, "CFG") {
+			z, err := compress(u, s0.DkComp)
+			if err != nil {
+				return nil, err
+			}
+			pool[en.C] = z
 		}
 	}
 	type dm struct {
-		Config   string
-		RepoTags []string
-		Layers   []string
+		Config       string
+		RepoTags     []string
+		Layers       []string
+		LayerSources map[string]map[string]any `json:",omitempty"`
 	}
 	var dms []dm
 	for _, de := range c0.Docker {
 		m := dm{Config: strings.Join(de.Cfg, "/"), RepoTags: de.Tags, Layers: []string{}}
 		for _, l := range de.Layers {
 			m.Layers = append(m.Layers, strings.Join(l, "/"))
+		}
+		if s0.DkLS == 1 {
+			// LayerSources as docker and regclient write it: descriptors of the layers as they would be
+			// distributed, keyed by digest.  The keys are the digests of the gzip form of each layer (what
+			// an importer that compresses with the standard gzip writer arrives at).
+			m.LayerSources = map[string]map[string]any{}
+			for _, l := range de.Layers {
+				if id, ok := resolvePath(c0.Entries, strings.Join(l, "/")); ok {
+					z := gz(unc[id])
+					dg := "sha256:" + sha256hex(z)
+					m.LayerSources[dg] = map[string]any{"mediaType": mtOCILayer, "digest": dg, "size": len(z)}
+				}
+			}
 		}
 		dms = append(dms, m)
 	}
@@ -144,7 +161,7 @@ func (d *driver) runDocker(key string, scns []*scenario) ([]*blockOut, error) {
 		kl = append(kl, sha256hex(unc[id]))
 	}
 	b.Lines = append(b.Lines, vtrace.Event{"ev": "dk_archive", "block": key, "cfg": sha256hex(unc[cfgID]), "layers": kl,
-		"gzlayers": s0.DkGz, "images": len(c0.Docker)})
+		"layercomp": s0.DkComp, "layersources": s0.DkLS, "images": len(c0.Docker)})
 	idOf := map[string]string{}
 	for id, u := range unc {
 		idOf[sha256hex(u)] = id
@@ -154,10 +171,11 @@ func (d *driver) runDocker(key string, scns []*scenario) ([]*blockOut, error) {
 		c := d.cat[sidKey(s.Sid)]
 		t := &traceOut{ID: s.ID, Scn: s, Meta: map[string]any{}}
 		t.Events = append(t.Events, vtrace.Event{"ev": "dk_begin", "id": s.ID})
-		archive, err := repack(s.Arch, nil, pool, s.Gzip == 1)
+		archive, err := repack(s.Arch, nil, pool, s.RComp, s.TarFmt)
 		if err != nil {
 			return nil, err
 		}
+		e := newEnv("default", s.TFeat, s.Chunk)
 		d.nRepo++
 		repo := fmt.Sprintf("tgt/r%06d", d.nRepo)
 		var dir, rstr string
@@ -268,7 +286,7 @@ func dockerTarget(st *store) (int, string, []string) {
 // taken away: a Docker format archive (manifest.json + blobs/...), selected by the plain name:tag of
 // the export name.  The archive's own statement of the image (config, layers of manifest.json)
 // is the expectation.
-func (d *driver) importDockerRest(e *env, key string, g *graph, ex *export, pool map[string][]byte, scns []*scenario) *blockOut {
+func (d *driver) importDockerRest(key string, g *graph, ex *export, pool map[string][]byte, scns []*scenario) *blockOut {
 	b := &blockOut{Block: key + "#dkrest", Kind: "docker", Traces: []*traceOut{}, Meta: map[string]any{"graph": g.name, "name": ex.dockerName}}
 	byName := map[string][]byte{}
 	for _, en := range ex.entries {
@@ -298,17 +316,18 @@ func (d *driver) importDockerRest(e *env, key string, g *graph, ex *export, pool
 			kl = append(kl, sha256hex(u))
 		}
 	}
-	b.Lines = append(b.Lines, vtrace.Event{"ev": "dk_archive", "block": b.Block, "cfg": kcfg, "layers": kl, "gzlayers": 0, "images": len(dm)})
+	b.Lines = append(b.Lines, vtrace.Event{"ev": "dk_archive", "block": b.Block, "cfg": kcfg, "layers": kl, "layercomp": "asexported", "layersources": 1, "images": len(dm)})
 	for _, s := range scns {
 		if ex.dockerName == "" {
 			fail(fmt.Errorf("scenario %s: the Docker name of an export from a layout without override is not known", s.ID))
 		}
 		t := &traceOut{ID: s.ID, Scn: s, Meta: map[string]any{"name": ex.dockerName}}
 		t.Events = append(t.Events, vtrace.Event{"ev": "dk_begin", "id": s.ID})
-		archive, err := repack(s.Arch, g, pool, s.Gzip == 1)
+		archive, err := repack(s.Arch, g, pool, s.RComp, s.TarFmt)
 		if err != nil {
 			fail(err)
 		}
+		e := newEnv("default", s.TFeat, s.Chunk)
 		d.nRepo++
 		repo := fmt.Sprintf("tgt/r%06d", d.nRepo)
 		var dir, rstr string
